@@ -39,25 +39,24 @@ def linear_description(dev, probes=3, seed=0):
   z = np.zeros(m)
 
   def val(c, x):
-    v = np.asarray(c['fun'](x.copy()), dtype=float).reshape(-1)
-    if v.size != 1:
-      raise AssertionError('constraint function returned %d values' % v.size)
-    return float(v[0])
+    # a constraint value is a number or a vector of components (scipy accepts both): one row per component
+    return np.asarray(c['fun'](x.copy()), dtype=float).reshape(-1)
   for c in dev.constraints:
     f0 = val(c, z)
-    J = np.array([val(c, np.eye(m)[i]) - f0 for i in range(m)])
+    J = np.array([val(c, np.eye(m)[i]) - f0 for i in range(m)]).T.reshape(len(f0), m)
     ok = True
     for _ in range(probes):
       x = b[:, 0] + rs.rand(m) * (b[:, 1] - b[:, 0])
-      if abs(val(c, x) - (f0 + J.dot(x))) > 1e-8 * (1 + abs(f0) + np.abs(J).sum()):
+      if np.abs(val(c, x) - (f0 + J.dot(x))).max() > 1e-8 * (1 + np.abs(f0).max() + np.abs(J).sum()):
         ok = False
     if not ok:
       all_linear = False
       continue
-    if c['type'] == 'eq':
-      Aeq.append(J); beq.append(-f0)
-    else:
-      G.append(J); h.append(-f0)
+    for k in range(len(f0)):
+      if c['type'] == 'eq':
+        Aeq.append(J[k]); beq.append(-f0[k])
+      else:
+        G.append(J[k]); h.append(-f0[k])
   return b[:, 0], b[:, 1], np.array(Aeq).reshape(-1, m), np.array(beq), np.array(G).reshape(-1, m), np.array(h), all_linear
 
 
@@ -111,8 +110,8 @@ def nonlinear_residual(x, dev):
   b = np.array(dev.bounds, dtype=float)
   r = max(0.0, float((b[:, 0] - x).max()), float((x - b[:, 1]).max()))
   for c in dev.constraints:
-    v = float(np.asarray(c['fun'](x.copy()), dtype=float).reshape(-1)[0])
-    r = max(r, abs(v) if c['type'] == 'eq' else -v)
+    v = np.asarray(c['fun'](x.copy()), dtype=float).reshape(-1)      # every component of a vector-valued constraint counts
+    r = max(r, float(np.abs(v).max()) if c['type'] == 'eq' else float((-v).max()))
   return r
 
 
